@@ -1127,6 +1127,16 @@ static void add_ref_seeds(void) {
 		rp_wrap_request(&b, &e, pl.p, pl.n);
 		snprintf(nm, sizeof nm, "ref:%s-req.v%d", kn, ver); add_seed(nm, b.p, b.n);
 		if (ver == 2) {
+			/* the same request with integers beyond 32 bits whose low half is small (2^32+5 as request id, 2^32+3 / 2^63 in the other fields) */
+			vb_reset(&pl); vb_reset(&body); vb_reset(&b);
+			rtlv_put_u64(&body, 0x01, 0x100000005ULL);
+			if (kind == RP_AGGR) { rtlv_put(&body, 0x02, 0, 0, h, hl, 0); rtlv_put_u64(&body, 0x03, 3); }
+			else { rtlv_put_u64(&body, 0x02, 0x100000003ULL); rtlv_put_u64(&body, 0x03, 0x8000000000000000ULL); }
+			rtlv_put(&pl, 0x02u, 0, 0, body.p, body.n, 0);
+			rp_wrap_request(&b, &e, pl.p, pl.n);
+			snprintf(nm, sizeof nm, "ref:%s-req-wide-integers.v%d", kn, ver); add_seed(nm, b.p, b.n);
+		}
+		if (ver == 2) {
 			/* configuration response (alone, and together with a response) */
 			vb_reset(&pl); vb_reset(&b);
 			if (kind == RP_AGGR) rp_aggr_conf_payload(&pl, 17, 1, 400, 1024, "ksi+tcp://parent.sim.invalid:3332");
@@ -1151,7 +1161,7 @@ static void add_ref_seeds(void) {
 static const char *QUICK_SEEDS[] = {
 	"ref:sig.tail3.rfc0", "ref:sig.tail2.rfc1", "ref:aggr-resp.v2", "ref:aggr-resp.v1", "ref:ext-resp.v2", "ref:ext-resp.v1", "ref:aggr-error.v2",
 	"ref:ext-conf.v2", "ref:sig.zero-length-input-hash", "ok-sig-metadata-with-padding.ksig", "rfc3161-sha1-as-input-hash-2017.ksig", "ok_nested-9.tlv",
-	"publications-one-cert-one-publication-record-with-wrong-hash.tlv", "ref:pubfile.large-unknown-record", NULL
+	"publications-one-cert-one-publication-record-with-wrong-hash.tlv", "ref:pubfile.large-unknown-record", "ref:ext-req-wide-integers.v2", NULL
 };
 
 static void load_seeds(void) {
